@@ -8,6 +8,8 @@
          seeds = - | <seed>:<vk or ValueError>,…
     pem <rsa|ec> <proc|none> <dek|none> <body> <pw|none> <dec> <der>   → ok | exc <Class>
          der = unused | 0 | 1 | 2 | 3 | <Class>
+    text <rsa|ec|ed> <pw|none> <lines> <b64> <kdf> <dec> <key> <seeds> <der>   → ok | exc <Class>
+         lines = none | <line>,<line>,…   line = code points in decimal joined by `.`   b64 = unused | Error | <hex>
     witness <aead|nonutf8>                                 → container of the `*_witness` theorem
   passphrases: hex, `-` = empty, `none` = None.
 -/
@@ -94,6 +96,27 @@ def step (line : String) : String :=
           | some n => .ok n
           | none => .error (clsOf der)
       showUnit (loadPem (mkPrims (.error (.other "x")) dec (.ok ()) [] derAns) k proc dek body pw)
+    | _, _, _, _, _, _ => "bad-op"
+  | ["text", k, pw, lines, b64, kdf, dec, key, seeds, der] =>
+    let kind : Option PKeyFile.Kind := if k == "ed" then some .ed else kind? k
+    let ls : Option (List PKeyText.Line) :=
+      if lines == "none" then some []
+      else (lines.splitOn ",").mapM fun l => if l == "-" then some [] else (l.splitOn ".").mapM String.toNat?
+    match kind, pw? pw, ls, ansBytes? kdf, ansBytes? dec, seedTable seeds with
+    | some kind, some pw, some ls, some kdf, some dec, some st =>
+      let derAns : M Nat :=
+        if der == "unused" then .error (.other "ORACLE-UNUSED")
+        else match der.toNat? with
+          | some n => .ok n
+          | none => .error (clsOf der)
+      let b64Ans : M Bytes :=
+        if b64 == "unused" then .error (.other "ORACLE-UNUSED")
+        else if b64 == "Error" then .error .binasciiError
+        else match ofHex? b64 with
+          | some b => .ok b
+          | none => .error (clsOf b64)
+      let T : PKeyText.TextPrims := { toPrims := mkPrims kdf dec (keyAns key) st derAns, b64 := fun _ => b64Ans }
+      showUnit (PKeyText.loadText T kind ls pw)
     | _, _, _, _, _, _ => "bad-op"
   | ["witness", w] =>
     if w == "aead" then toHexTok PV.Props.C37.aeadCipherFile
